@@ -7,4 +7,5 @@ mkdir -p .bin .build evidence replays
 (cd tools/instr && go build -o ../../.bin/instr .)
 ./build.sh >/dev/null
 ./build.sh race >/dev/null || echo "setup: race build failed (C19 will report a machinery error)" >&2
+./tools/rwtest.sh || echo "setup: WARNING rewriting-pass self-test failed" >&2
 echo "setup ok"
